@@ -26,6 +26,13 @@ type gbuilder struct {
 	c     *Ctx
 	defs  map[*types.Var]localDef
 	depth int
+	sec   int // section instance of the expression being built
+}
+
+// usable: a definition that read shared state stands for that state only inside the section it
+// was made in.
+func (b *gbuilder) usable(d localDef) bool {
+	return d.expr != nil && (!d.shared || d.sec == b.sec)
 }
 
 func (b *gbuilder) term(e ast.Expr, fr *core.Frame) (string, bool) {
@@ -39,7 +46,7 @@ func (b *gbuilder) term(e ast.Expr, fr *core.Frame) (string, bool) {
 	switch x := e.(type) {
 	case *ast.Ident:
 		if v := identVar(x, fr); v != nil {
-			if d, ok := b.defs[v]; ok && d.expr != nil && b.depth < 6 {
+			if d, ok := b.defs[v]; ok && b.usable(d) && b.depth < 6 {
 				// a local that merely renames a field/len()/Load(): use what it stands for
 				b.depth++
 				t, ok := b.term(d.expr, d.fr)
@@ -141,7 +148,7 @@ func (b *gbuilder) build(e ast.Expr, fr *core.Frame) *formula {
 			return &formula{kind: fConst, val: tv.Value.ExactString() == "true"}
 		}
 		if v := identVar(x, fr); v != nil {
-			if d, ok := b.defs[v]; ok && d.expr != nil && b.depth < 6 && isBasic(v.Type(), types.IsBoolean) {
+			if d, ok := b.defs[v]; ok && b.usable(d) && b.depth < 6 && isBasic(v.Type(), types.IsBoolean) {
 				b.depth++
 				f := b.build(d.expr, d.fr)
 				b.depth--
@@ -201,6 +208,11 @@ func isPureOrLoad(e ast.Expr, fr *core.Frame) bool {
 			if tv, has := fr.Info().Types[x.Fun]; has && tv.IsType() {
 				ok = true // conversion
 			}
+			if sel, isSel := unparen(x.Fun).(*ast.SelectorExpr); isSel && len(x.Args) == 0 && sel.Sel.Name == "Err" {
+				if t := fr.Info().TypeOf(sel.X); t != nil && isContextType(t) {
+					ok = true // ctx.Err(): a read of the context's state
+				}
+			}
 			if !ok {
 				pure = false
 			}
@@ -220,6 +232,31 @@ func prepare(c *Ctx, p *core.Path) *gpath {
 	g := &gpath{c: c, p: p, defs: make([]map[*types.Var]localDef, len(p.Events)+1), lits: make([]*r2Lit, len(p.Events)), sec: make([]int, len(p.Events))}
 	cur := map[*types.Var]localDef{}
 	var open []int
+	clone := func() map[*types.Var]localDef {
+		n := make(map[*types.Var]localDef, len(cur)+1)
+		for k, d := range cur {
+			n[k] = d
+		}
+		return n
+	}
+	// kill drops the definitions whose expression reads the written variable
+	kill := func(w *types.Var) {
+		if w == nil {
+			return
+		}
+		var dead []*types.Var
+		for k, d := range cur {
+			if d.expr != nil && mentionsVar(d.expr, w, d.fr) {
+				dead = append(dead, k)
+			}
+		}
+		if len(dead) > 0 {
+			cur = clone()
+			for _, k := range dead {
+				delete(cur, k)
+			}
+		}
+	}
 	for i, ev := range p.Events {
 		g.defs[i] = cur
 		g.sec[i] = -1
@@ -238,37 +275,96 @@ func prepare(c *Ctx, p *core.Path) *gpath {
 				}
 			}
 		case core.KBranch:
-			gb := &gbuilder{c: c, defs: cur}
+			gb := &gbuilder{c: c, defs: cur, sec: g.sec[i]}
 			g.lits[i] = &r2Lit{f: gb.build(ev.Cond, ev.Frame), val: ev.CondVal}
 		case core.KAssign:
 			if ev.FieldInit {
 				break
 			}
+			kill(ev.Var)
 			if v := identVar(ev.Lhs, ev.Frame); v != nil && !v.IsField() {
-				n := make(map[*types.Var]localDef, len(cur)+1)
-				for k, d := range cur {
-					n[k] = d
-				}
+				cur = clone()
 				if ev.Rhs != nil && ev.RhsIdx < 0 && (ev.Tok == token.ASSIGN || ev.Tok == token.DEFINE) && isPureOrLoad(ev.Rhs, ev.Frame) && !mentions(ev.Rhs, v, ev.Frame) {
-					n[v] = localDef{expr: ev.Rhs, fr: ev.Frame}
+					cur[v] = localDef{expr: ev.Rhs, fr: ev.Frame, sec: g.sec[i], shared: readsShared(c, ev.Rhs, ev.Frame)}
 				} else {
-					delete(n, v)
+					delete(cur, v)
 				}
-				cur = n
 			}
 		case core.KIncDec:
-			if v := identVar(ev.Lhs, ev.Frame); v != nil {
-				n := make(map[*types.Var]localDef, len(cur))
-				for k, d := range cur {
-					n[k] = d
+			if v := varOf(ev.Lhs, ev.Frame); v != nil {
+				kill(v)
+				if !v.IsField() {
+					cur = clone()
+					delete(cur, v)
 				}
-				delete(n, v)
-				cur = n
+			}
+		case core.KCall:
+			if ev.Builtin == "delete" && len(ev.Call.Args) > 0 {
+				kill(varOf(ev.Call.Args[0], ev.Frame))
 			}
 		}
 	}
 	g.defs[len(p.Events)] = cur
 	return g
+}
+
+// mentionsVar reports whether e reads the variable w (a local by identity, a field by its origin).
+func mentionsVar(e ast.Expr, w *types.Var, fr *core.Frame) bool {
+	found := false
+	ast.Inspect(e, func(n ast.Node) bool {
+		switch x := n.(type) {
+		case *ast.Ident:
+			if identVar(x, fr) == w {
+				found = true
+			}
+		case *ast.SelectorExpr:
+			if fv := fieldVar(x, fr); fv != nil && fv == w.Origin() {
+				found = true
+			}
+		}
+		return !found
+	})
+	return found
+}
+
+// readsShared reports whether e reads a struct field, a package variable or a local captured by an
+// escaping closure.
+func readsShared(c *Ctx, e ast.Expr, fr *core.Frame) bool {
+	found := false
+	ast.Inspect(e, func(n ast.Node) bool {
+		switch x := n.(type) {
+		case *ast.CallExpr:
+			if id, ok := unparen(x.Fun).(*ast.Ident); !ok || id.Name != "len" && id.Name != "cap" {
+				if tv, has := fr.Info().Types[x.Fun]; !has || !tv.IsType() {
+					found = true // Load(), ctx.Err(): state that others change
+				}
+			}
+		case *ast.SelectorExpr:
+			if fieldVar(x, fr) != nil {
+				found = true
+			}
+		case *ast.Ident:
+			if v := identVar(x, fr); v != nil && !v.IsField() {
+				if v.Pkg() != nil && v.Parent() == v.Pkg().Scope() {
+					found = true
+				} else if d := c.Prog.EnclosingDecl(v.Pos()); d != nil {
+					ei := core.EscapesOf(c.Prog, d)
+					for lit, esc := range ei.Esc {
+						if esc == core.EscNone {
+							continue
+						}
+						for _, cv := range ei.Captured[lit] {
+							if cv == v {
+								found = true
+							}
+						}
+					}
+				}
+			}
+		}
+		return !found
+	})
+	return found
 }
 
 func mentions(e ast.Expr, v *types.Var, fr *core.Frame) bool {
